@@ -23,7 +23,7 @@ BOUNDS = {
 STUBS = ["none: real contextvars contexts (copy_context().run)"]
 ASSUMPTIONS = ["operations are atomic: preemption inside an operation, real threads and asyncio scheduling are not modelled (contextvars is C)",
                "schedules are enumerated; the solver quantifies over the stored values only"]
-OUTSIDE = ["thread / asyncio interleavings below operation granularity", "LocalManager middleware", "proxy operator forwarding beyond resolution and augmented assignment"]
+OUTSIDE = ["thread / asyncio interleavings below operation granularity", "LocalManager.make_middleware (WSGI plumbing)", "proxy operator forwarding beyond resolution and augmented assignment"]
 
 OPS = ["A.set", "B.set", "A.del", "B.del", "A.release", "spawnC", "C.set", "C.del", "A.push", "B.push", "A.pop", "C.push", "C.pop", "C.release"]
 
@@ -189,6 +189,34 @@ def body_proxy_unbound(I, X, custom_message=False, target="local"):
     return ok, {"a": [ba, ta, ra], "b": [bb, tb, rb, db]}
 
 
+def body_manager_cleanup(I, X, top="none"):
+    """LocalManager.cleanup() releases every managed local for the current context -- whatever is
+    on top of a stack (also None / falsy values) -- and only for that context"""
+    from werkzeug.local import Local, LocalManager, LocalStack
+
+    base = contextvars.copy_context()
+    loc = base.run(Local)
+    stk = base.run(LocalStack)
+    mgr = LocalManager([loc, stk])
+    a, b = base.run(contextvars.copy_context), base.run(contextvars.copy_context)
+    v0, v1 = X.int("v0", -1000, 1000), X.int("v1", -1000, 1000)
+    for cx, v in ((a, v0), (b, v1)):
+        cx.run(lambda: I.setattr(loc, "x", v))
+        cx.run(lambda: I.call(stk.push, (v,)))
+    if top == "none":
+        a.run(lambda: I.call(stk.push, (None,)))
+    elif top == "zero":
+        a.run(lambda: I.call(stk.push, (0,)))
+    a.run(lambda: I.call(mgr.cleanup, ()))
+    first_pop = a.run(lambda: I.call(stk.pop, ()))
+    a_top = a.run(lambda: I.getattr(stk, "top"))
+    a_items = a.run(lambda: list(iter(loc)))
+    b_top = b.run(lambda: I.getattr(stk, "top"))
+    b_x = b.run(lambda: I.getattr(loc, "x"))
+    ok = pand(first_pop is None, a_top is None, len(a_items) == 0, peq(b_top, v1), peq(b_x, v1))
+    return ok, {"a_top_is_none": a_top is None, "a_items": len(a_items)}
+
+
 def body_iter_snapshot(I, X, then="consume-in-sibling"):
     """iter(local) is bound to the context that called it: consuming the iterator in a sibling
     context, or after the namespace was released, yields the values it was created over"""
@@ -214,6 +242,9 @@ def body_iter_snapshot(I, X, then="consume-in-sibling"):
 
 def obligations(tier, seed):
     out = []
+    for top in ("value", "none", "zero"):
+        out.append({"name": f"manager_cleanup[top={top}]", "body": "body_manager_cleanup", "params": {"top": top},
+                    "opts": {"budget_s": 300, "ctx": {"bv_ints": True}}})
     for custom in (False, True):
         for target in ("local", "stack"):
             out.append({"name": f"proxy_unbound[custom_message={custom},{target}]", "body": "body_proxy_unbound",
